@@ -93,6 +93,17 @@ def children_loop_iterations(f, E):
     return len(vis), conds
 
 
+def _no_observers_branch(P):
+    """did this path branch on `…hasSubscriptions()` being false (directly or negated)?"""
+    for cond, val, how in P.decisions:
+        c = cond; want = False
+        while c is not None and c.k in ('cast', 'paren') and c.n('sub') is not None: c = c.n('sub')
+        if c is not None and c.k == 'unop' and c.op == '!': c = c.n('sub'); want = True
+        while c is not None and c.k in ('cast', 'paren') and c.n('sub') is not None: c = c.n('sub')
+        if c is not None and c.k == 'call' and (c.calleeq or '').split('::')[-1] == 'hasSubscriptions' and val is want: return True
+    return False
+
+
 def self_recursive(f):
     return any(n.k == 'call' and strip_targs(n.calleeq or '') == f.gname for n in f.nodes())
 
@@ -200,6 +211,9 @@ class RouterAnalysis:
                     if leaf:
                         if has_subject:
                             ok = len(leafn) == 1 and not rec and ret == Lin.const(1)
+                            if not leafn and not rec and ret == Lin.const(1) and _no_observers_branch(P):
+                                # the subject is skipped on a path on which it reported that it has no subscription: nobody to deliver to
+                                self.add('RT.3', True, f'{short} row {row}: a leaf whose subject has no subscription counts 1 and has nobody to notify', f.shortloc(), '', key='RT.3|leaf'); continue
                             self.add('RT.3', ok, f'{short} row {row}: the leaf notifies its subject once and counts 1', leafn[0].site if leafn else f.shortloc(),
                                      '' if ok else f'{len(leafn)} notification(s), returns {P.ret}', key='RT.3|leaf')
                         else:
@@ -207,6 +221,25 @@ class RouterAnalysis:
                             self.add('RT.3', ok, f'{short} row {row}: a leaf without subject counts 0', f.shortloc(), '' if ok else f'returns {P.ret} for a key that holds no subject', key='RT.3|leaf-empty')
                         continue
                     if regex:
+                        accs = [e for e in E if e.kind == 'call' and e.name == 'std::accumulate']
+                        if accs and not rec and not leafn:
+                            # the fan-out written as a left fold over the children: init 0, step = accumulator + child.notify(next level, args…)
+                            e0 = accs[0]
+                            whole = len(e0.args) == 4 and isinstance(e0.args[0], Sym) and e0.args[0].name == 'm_children.begin' and isinstance(e0.args[1], Sym) and e0.args[1].name == 'm_children.end' and isinstance(e0.args[3], Closure)
+                            okf = None
+                            if whole and len(accs) == 1 and as_lin(e0.args[2]) == Lin.const(0) and ret == Lin.sym(f'accum@{e0.node.id}'):
+                                okf = True
+                                from evdom import _flatten
+                                for SP in Exec(self.facts, RouterDomain(dict(matches=True))).run_closure(e0.args[3], args=[Lin.sym('acc'), Sym('m_children.front')], this_path=('this',)):
+                                    SE = _flatten(SP)
+                                    rc = [x for x in SE if x.kind == 'call' and strip_targs(x.name) == f'{NODE}::notify']
+                                    r_ = as_lin(SP.ret) if isinstance(SP.ret, (Lin, int)) else None
+                                    if len(rc) != 1 or r_ is None: okf = None; break
+                                    if r_ != Lin.sym('acc') + Lin.sym(f'count@{rc[0].node.id}'): okf = False; why_ = f'the fold step returns {SP.ret}, expected accumulator + the child\'s count'; break
+                            if okf is True: self.add('RT.3', True, f'{short} row {row}: every child is visited under a regex level and the counts are summed (std::accumulate over all children, step = accumulator + child count)', e0.site, '', key='RT.3|regex-all')
+                            elif okf is False: self.add('RT.3', False, f'{short} row {row}: the counts of all children are summed', e0.site, why_, key='RT.3|sum')
+                            else: self.add('RT.3', None, f'{short} row {row}: fan-out under a regex level', e0.site, 'the fan-out is a std::accumulate whose range / initial value / step is not in the recognised form')
+                            continue
                         ok = not leafn and len(rec) == iters
                         why = ''
                         if len(rec) != iters: why = f'{len(rec)} recursive call(s) for {iters} child(ren) under a regex level: a child is skipped before the pattern is matched against it — keys below it are not reached and the returned count is too low'
